@@ -36,6 +36,12 @@ def fn(a, b=2):
         return None
 class K(object):
     attr = 1
+    @staticmethod
+    def sm(a):
+        return a + 1
+    @classmethod
+    def cm(cls, a):
+        return a + 2
     def meth(self, x):
         for i in range(x):
             if i:
@@ -328,7 +334,10 @@ def run_case(case, ctx):
     if case["kind"] == "tables":
         import opcode
 
-        for name in ("opmap", "opname", "hasconst", "hasname", "HAVE_ARGUMENT", "EXTENDED_ARG"):
+        for name in ("opmap", "opname", "hasconst", "hasname", "HAVE_ARGUMENT", "EXTENDED_ARG", "hasjrel", "hasjabs", "haslocal", "hascompare",
+                     "hasfree", "hasarg", "hasexc", "hasjump"):
+            if not hasattr(opcode, name):
+                continue    # this host's dis has no such table
             ctx.count("tables")
             if not hasattr(X, name):
                 ctx.violation("%s:table-missing:%s" % (htag, name), "xdis.std lacks %s" % name)
@@ -346,7 +355,8 @@ def run_case(case, ctx):
                     ctx.violation("%s:table:opname" % htag, "differs at %s" % (bad[:4],))
                 continue
             if isinstance(b, (list, tuple, set, frozenset)):
-                a, b = sorted(x for x in a if x < 256), sorted(x for x in b if x < 256)
+                # category tables are membership tables (xdis keeps some as lists with repeated entries)
+                a, b = sorted(set(x for x in a if x < 256)), sorted(set(x for x in b if x < 256))
             if a != b:
                 ctx.violation("%s:table:%s" % (htag, name), "xdis.std.%s != opcode.%s (%s vs %s)" % (name, name, str(a)[:80], str(b)[:80]))
         return
@@ -404,6 +414,32 @@ def run_case(case, ctx):
         objs = [("function", ns["fn"]), ("method", ns["K"]().meth), ("class", ns["K"]), ("generator", g), ("coroutine", c), ("asyncgen", ag),
                 ("code", ns["fn"].__code__), ("lambda", ns["lam"]), ("source", "x = [i for i in range(3)]\nprint(x)"), ("source-expr", "a + b * 2"),
                 ("unbound", ns["K"].meth), ("int", 5), ("none-str", ""), ("staticmethod-class", types.SimpleNamespace)]
+        objs_dis = objs + [("staticmethod-object", ns["K"].__dict__["sm"]), ("classmethod-object", ns["K"].__dict__["cm"]), ("module", types.ModuleType("m"))]
+        import io as _io
+        import re as _re
+
+        for kind, obj in objs_dis:
+            # dis(): what gets printed - same number of instruction lines as the host's dis prints, or both refuse
+            ctx.count("dis_outputs")
+            a, b = _io.StringIO(), _io.StringIO()
+            ra = rb = None
+            try:
+                dis.dis(obj, file=a)
+            except Exception as e:
+                ra = type(e).__name__
+            try:
+                X.dis(obj, file=b)
+            except Exception as e:
+                rb = type(e).__name__
+            if (ra is None) != (rb is None):
+                ctx.violation("%s:dis():acceptance:%s" % (htag, kind), "dis.dis %s, xdis.std.dis %s" % (ra or "prints", rb or "prints"))
+                continue
+            if ra is None:
+                inst = _re.compile(r"^\s*(?:\d+:?\s+)?(?:-->)?\s*(?:>>)?\s*(?:L\d+:)?\s*\d*\s+[A-Z][A-Z_0-9+]+(\s|$)")
+                na = len([l for l in a.getvalue().splitlines() if inst.match(l) and "CACHE" not in l])
+                nb = len([l for l in b.getvalue().splitlines() if inst.match(l) and "CACHE" not in l])
+                if (na == 0) != (nb == 0):
+                    ctx.violation("%s:dis():empty:%s" % (htag, kind), "dis.dis prints %d instruction lines, xdis.std.dis %d" % (na, nb))
         for kind, obj in objs:
             check_object(ctx, htag, kind, obj, FIRST_LINES)
         c.close()
